@@ -659,6 +659,7 @@ class World(object):
         self.ensure_no_dataflow_cycles()
 
         self.cache_triggering_ancestors()
+        self.cache_lazy_cutoffs()
 
         logger.info('Starting simulation.')
         # 11 is the length of "Total: 100%"
@@ -744,6 +745,35 @@ class World(object):
                             dirty.add(dest_sim)
                             dest_sim.triggering_ancestors[src_sim] = src_to_dest
         return
+
+    def cache_lazy_cutoffs(self):
+        """For each simulator and each of its successors, determine the
+        smallest cutoff of all data paths from the simulator to the
+        successor and store it in the simulator object.
+        """
+        # See ``ensure_no_dataflow_cycles`` for an explanation of this
+        # algorithm
+        min_cutoffs: Dict[SimRunner, Dict[SimRunner, int]] = {
+            sim: {} for sim in self.sims.values()
+        }
+        for sim in self.sims.values():
+            for pred, delay in sim.input_delays.items():
+                min_cutoffs[pred][sim] = delay.cutoff
+        dirty: Set[SimRunner] = set(self.sims.values())
+        while dirty:
+            mid_sim = dirty.pop()
+            for src_sim, src_to_mid in mid_sim.input_delays.items():
+                for dest_sim, mid_to_dest in list(min_cutoffs[mid_sim].items()):
+                    src_to_dest = min(src_to_mid.cutoff, mid_to_dest)
+                    if src_to_dest < min_cutoffs[src_sim].get(dest_sim, src_to_dest + 1):
+                        min_cutoffs[src_sim][dest_sim] = src_to_dest
+                        dirty.add(src_sim)
+        for sim in self.sims.values():
+            sim.lazy_cutoffs = {
+                suc_sim: min_cutoffs[sim][suc_sim]
+                for suc_sim in sim.successors
+                if suc_sim in min_cutoffs[sim]
+            }
 
     def ensure_no_dataflow_cycles(self):
         """Make sure that there is no cyclic dataflow with 0 total
